@@ -3,6 +3,8 @@
         -> req=<hex> ret=ok cbs=<n> [cb=...]* end=<done|cancelled|error>   | fault | assert | fuel
      render <ishead> <interims> <final> <framing> <body>
         -> ok <wf 0|1> <stream hex> <expected " cb=..." text> (the SPEC: HttpSpec.render / expect / wf_response)
+     wfnl <ishead> <interims> <final> <framing> <body>
+        -> ok <wf_response_nolimits 0|1> <within_limits 0|1>       (the SPEC without / only the two size limits)
      cbok <limit> <status> <bnull 0|1> <bodylen hex> <actual body length hex>
         -> ok 0|1                                                   (the SPEC predicate HttpSpec.cb_ok)
      layout <method> <path> <hdrs> <reqbody>  -> ok <hex>           (the SPEC: HttpSpec.request_layout) *)
@@ -102,6 +104,11 @@ let () = iter_lines (fun line ->
               p_framing = parse_framing framing; p_body = hexs body } in
     let wf = wf_response (ishead = "1") r in
     print_endline (Printf.sprintf "ok %d %s%s" (if wf then 1 else 0) (hex_of_bytes (render r)) (show_cb (expect r)))
+  | ["wfnl"; ishead; interims; final; framing; body] ->
+    let r = { p_interim = List.map parse_msg (split '|' interims); p_final = parse_msg final;
+              p_framing = parse_framing framing; p_body = hexs body } in
+    print_endline (Printf.sprintf "ok %d %d" (if wf_response_nolimits (ishead = "1") r then 1 else 0)
+                     (if within_limits r then 1 else 0))
   | ["cbok"; limit; status; bnull; blen; actual] ->
     (* the body itself does not matter to cb_ok, only its length *)
     let rec mk k acc = if k <= 0 then acc else mk (k - 1) (N0 :: acc) in
